@@ -1662,7 +1662,9 @@ fn directed(out: &mut dyn Write) {
     ];
     // shared-subscription filters with multi-byte share names (well-formed UTF-8), with and
     // without wildcards inside the share name, SUBSCRIBE and UNSUBSCRIBE, both versions
-    for filter in ["$share/g/t", "$share/g/+/x", "t/#", "$share/é/t", "$share/グループ/a/b", "$share/é+/t", "$share/é#/t", "$share/€/+/x", "$share/é", "$share/é/"] {
+    for filter in ["$share/g/t", "$share/g/+/x", "t/#", "$share/é/t", "$share/グループ/a/b", "$share/é+/t", "$share/é#/t", "$share/€/+/x", "$share/é", "$share/é/",
+        // around the prefix itself: not shared at all / shared with nothing behind the prefix
+        "$share", "$shar", "$shared", "$shared/g/t", "$share/", "$share//", "$SHARE/g/t", "x$share/g/t", "$share/g/"] {
         for ver in [4u8, 5] {
             let f = filter.as_bytes();
             let mut sub = vec![0x00, 0x01];
